@@ -254,8 +254,8 @@ theorem C09_reload_other_keys_untouched (env : Env) (fuel : Nat) (s : St) (key :
       | ok v =>
         simp only []
         split
-        · rw [setCell_lookup_other _ _ _ _ hne]; simpa [St.lookup] using hm
-        · simpa [St.lookup] using hm
+        · rw [St.swapValue_lookup, setCell_lookup_other _ _ _ _ hne]; simpa [St.lookup] using hm
+        · rw [St.handOut_lookup]; simpa [St.lookup] using hm
       | err e => simpa [St.lookup] using hm
       | panicked => simp only []; split <;> simpa [St.lookup] using hm
       | diverged => simpa [St.lookup] using hm
